@@ -44,6 +44,14 @@ Theorem fill_sees_slot_providers_then_tag_providers : forall st al body btw cloc
 Proof. exact fill_state_prov_lemma. Qed.
 Print Assumptions fill_sees_slot_providers_then_tag_providers.
 
+(* ... and therefore, in every state the renderer can reach (scope_inv), what a fill body can inject is exactly the stack of
+   provide blocks around the slot where it is rendered: the tag's providers never win over it nor add to it *)
+Theorem fill_providers_are_slot_stack : forall st stk cn fills iso k c aliases key,
+  scope_inv st stk -> cur st = Some (Inst cn fills iso) -> slookup k fills = Some c ->
+  slookup key (prov (fill_state iso st aliases c)) = slookup key stk.
+Proof. exact fill_providers_are_slot_stack_lemma. Qed.
+Print Assumptions fill_providers_are_slot_stack.
+
 (* inject(key) returns the record of the FIRST entry with that key (an outer provider of the same key is shadowed);
    a field the provide tag did not pass raises AttributeError *)
 Theorem inject_returns_nearest_shadowing_outer : forall a b key record field dflt,
